@@ -496,18 +496,28 @@ func builderSigned(c *mon.Case, w *world, s signedSpec) {
 	}
 	var sd *pkcs7.SignedData
 	var err error
+	hc := hold(c, "content", content, anyShape(c.R, s.n, 16)) // content stays the private original
+	nUnauth := 0
 	add := func(i int) error {
 		g, e := s.signers[i], ees[i]
 		sd.SetDigestAlgorithm(digestOIDs[g.digest])
+		var cfg pkcs7.SignerInfoConfig
+		if g.xUnsigned && !g.noAttr {
+			cfg.ExtraUnsignedAttributes = []pkcs7.Attribute{{Type: oidExtraAttr, Value: fmt.Sprintf("unsigned-%d", i)}}
+			nUnauth++
+		}
 		var err error
 		switch {
 		case g.noAttr:
-			err = sd.SignWithoutAttr(e.cert, e.key, pkcs7.SignerInfoConfig{})
+			err = sd.SignWithoutAttr(e.cert, e.key, cfg)
 		case g.chain && len(e.parents) > 0:
-			return sd.AddSignerChain(e.cert, e.key, e.parents, pkcs7.SignerInfoConfig{})
+			err = sd.AddSignerChain(e.cert, e.key, e.parents, cfg)
+			hc.audit("SignedData.AddSigner")
+			return err
 		default:
-			err = sd.AddSigner(e.cert, e.key, pkcs7.SignerInfoConfig{})
+			err = sd.AddSigner(e.cert, e.key, cfg)
 		}
+		hc.audit("SignedData.AddSigner")
 		for _, p := range e.parents {
 			sd.AddCertificate(p)
 		}
@@ -536,21 +546,31 @@ func builderSigned(c *mon.Case, w *world, s signedSpec) {
 			c.Fail("mismatch", "%s carries another content; message: %v", what, s)
 		}
 	}
-	var out1, out1b, out2 []byte
+	var out1, out1b, out2, out3, out4 []byte
+	var keep1 []byte
 	ok := c.Call("builder", func() {
 		if s.sm {
-			sd, err = pkcs7.NewSMSignedData(content)
+			sd, err = pkcs7.NewSMSignedData(hc.s)
 		} else {
-			sd, err = pkcs7.NewSignedData(content)
+			sd, err = pkcs7.NewSignedData(hc.s)
 		}
 		if err != nil {
 			return
 		}
+		hc.audit("NewSignedData")
 		if err = add(0); err != nil {
 			return
 		}
 		if out1, err = finish(); err != nil {
 			return
+		}
+		hc.audit("SignedData.Finish")
+		keep1 = clone(out1)
+		if c.R.Bool() { // the caller consumes and reuses the returned slice before the next call on the builder
+			for i := range out1 {
+				out1[i] ^= 0x5c
+			}
+			c.Event("buffers/returned_slice_overwritten_before_next_call", 1)
 		}
 		if out1b, err = finish(); err != nil {
 			return
@@ -560,7 +580,20 @@ func builderSigned(c *mon.Case, w *world, s signedSpec) {
 				return
 			}
 		}
-		out2, err = finish()
+		// every signer has signed: the caller reuses its content buffer before Finish
+		hc.scribble()
+		if out2, err = finish(); err != nil {
+			return
+		}
+		hc.audit("SignedData.Finish")
+		// rarely used builder options: unauthenticated attributes are outside every signature, removing them leaves
+		// a message that verifies; authenticated attributes are what the signature covers
+		sd.RemoveUnauthenticatedAttributes()
+		if out3, err = finish(); err != nil {
+			return
+		}
+		sd.RemoveAuthenticatedAttributes()
+		out4, err = finish()
 	})
 	if !ok {
 		return
@@ -569,21 +602,64 @@ func builderSigned(c *mon.Case, w *world, s signedSpec) {
 		c.Fail("reject", "builder sequence fails: %v; message: %v", err, s)
 		return
 	}
-	keep := append([]byte{}, out1...)
-	check("the first Finish output", out1, 1)
+	keepb := clone(out1b)
+	check("the first Finish output", keep1, 1)
 	check("the second Finish output (nothing added in between)", out1b, 1)
 	check("the Finish output after adding the remaining signers", out2, len(s.signers))
-	if !bytes.Equal(out1, keep) {
+	if !bytes.Equal(out1b, keepb) {
 		c.Fail("mismatch", "a later builder call changed the bytes returned by an earlier Finish")
 	}
-	if bytes.Equal(out1, out1b) {
+	if bytes.Equal(keep1, out1b) {
 		c.Event("history/builder_second_finish_identical", 1)
+	}
+	// attribute removal
+	count := func(der []byte) (auth, unauth int, ok bool) {
+		p, err := pkcs7.Parse(der)
+		if err != nil {
+			return 0, 0, false
+		}
+		for _, si := range p.Signers {
+			auth += len(si.AuthenticatedAttributes)
+			unauth += len(si.UnauthenticatedAttributes)
+		}
+		return auth, unauth, true
+	}
+	a2, u2, ok2 := count(out2)
+	a3, u3, ok3 := count(out3)
+	a4, u4, ok4 := count(out4)
+	if ok2 && u2 != nUnauth {
+		c.Fail("mismatch", "%d unauthenticated attributes were configured, the message carries %d; message: %v", nUnauth, u2, s)
+	}
+	check("the Finish output after RemoveUnauthenticatedAttributes", out3, len(s.signers))
+	c.Event("history/builder_remove_unauthenticated_attributes", 1)
+	if !ok3 || u3 != 0 || a3 != a2 {
+		c.Fail("mismatch", "after RemoveUnauthenticatedAttributes the message carries %d unauthenticated and %d authenticated attributes (before: %d and %d; parses: %v); message: %v", u3, a3, u2, a2, ok3, s)
+	}
+	c.Event("history/builder_remove_authenticated_attributes", 1)
+	if !ok4 || a4 != 0 || u4 != 0 {
+		c.Fail("mismatch", "after RemoveAuthenticatedAttributes the message carries %d authenticated attributes (%d unauthenticated; parses: %v); message: %v", a4, u4, ok4, s)
+	}
+	if a2 == 0 {
+		// no signer had attributes: the call changes nothing that is signed
+		check("the Finish output after RemoveAuthenticatedAttributes (no signer had attributes)", out4, len(s.signers))
+	} else if ok4 {
+		// the signatures were made over the attributes that are gone now: whatever the verifier says, it must not be
+		// "verified" for a content other than the signed one (the alteration sweeps own that question); counted only
+		b := &built{spec: s, der: out4, content: content, ees: ees, w: w}
+		if pi := mon.Try(func() { _, err = b.verify(out4) }); pi != nil {
+			c.Fail("panic", "verifying the message after RemoveAuthenticatedAttributes panics: %v", pi.Value)
+		} else if err == nil {
+			c.Event("history/builder_attributes_removed_after_signing:verifies", 1)
+		} else {
+			c.Event("history/builder_attributes_removed_after_signing:does_not_verify(signature_was_over_the_attributes)", 1)
+		}
 	}
 }
 
 func builderEnv(c *mon.Case, w *world, s envSpec) {
 	content := c.R.Bytes(s.n)
 	ci := contentCiphers[s.ci]
+	hc := hold(c, "content", content, anyShape(c.R, s.n, ci.block)) // content stays the private original
 	b := &builtEnv{spec: s, w: w, content: content}
 	for i, k := range s.rcpt {
 		e, err := w.newEE(c.R, k, s.riss[i], eeOpt{ski: true})
@@ -624,24 +700,28 @@ func builderEnv(c *mon.Case, w *world, s envSpec) {
 				return
 			}
 			if s.api == aSignEnv {
-				sed, err = pkcs7.NewSignedAndEnvelopedData(content, ci.c)
+				sed, err = pkcs7.NewSignedAndEnvelopedData(hc.s, ci.c)
 			} else {
-				sed, err = pkcs7.NewSMSignedAndEnvelopedData(content, ci.c)
+				sed, err = pkcs7.NewSMSignedAndEnvelopedData(hc.s, ci.c)
 			}
 			if err != nil {
 				return
 			}
+			hc.audit("NewSignedAndEnvelopedData")
 			sed.SetDigestAlgorithm(digestOIDs[s.signer.digest])
 			if err = sed.AddSigner(b.signer.cert, b.signer.key); err != nil {
 				return
 			}
+			hc.audit("SignedAndEnvelopedData.AddSigner")
 			for _, p := range b.signer.parents {
 				sed.AddCertificate(p)
 			}
 		case aEncrypt:
-			ed, err = pkcs7.NewEnvelopedData(ci.c, content)
+			ed, err = pkcs7.NewEnvelopedData(ci.c, hc.s)
+			hc.audit("NewEnvelopedData")
 		default:
-			ed, err = pkcs7.NewSM2EnvelopedData(ci.c, content)
+			ed, err = pkcs7.NewSM2EnvelopedData(ci.c, hc.s)
+			hc.audit("NewEnvelopedData")
 		}
 		if err != nil {
 			return
@@ -652,6 +732,17 @@ func builderEnv(c *mon.Case, w *world, s envSpec) {
 		if out1, err = finish(); err != nil {
 			return
 		}
+		hc.audit("Finish")
+		if c.R.Bool() { // the caller consumes and reuses the returned slice before the next call on the builder
+			keep := clone(out1)
+			for i := range out1 {
+				out1[i] ^= 0x5c
+			}
+			out1 = keep
+			c.Event("buffers/returned_slice_overwritten_before_next_call", 1)
+		}
+		// content was encrypted by the constructor and signed by AddSigner: the caller reuses its buffer
+		hc.scribble()
 		if out1b, err = finish(); err != nil {
 			return
 		}
@@ -661,6 +752,7 @@ func builderEnv(c *mon.Case, w *world, s envSpec) {
 			}
 		}
 		out2, err = finish()
+		hc.audit("Finish")
 	})
 	if !ok {
 		return
